@@ -69,6 +69,11 @@ fn raw_rows(conn: &rusqlite::Connection) -> Vec<(String, Option<Vec<u8>>, i64, i
 static COUNTER: std::sync::atomic::AtomicU64 = std::sync::atomic::AtomicU64::new(0);
 
 impl World {
+    pub fn new_mem() -> World {
+        let p = pool::Pool::new_in_memory().expect("open in-memory store");
+        World { path: std::path::PathBuf::new(), pool: Some(p), shift: 0, granted: vec![], last_secs: 300 }
+    }
+
     pub fn new() -> World {
         let k = COUNTER.fetch_add(1, std::sync::atomic::Ordering::SeqCst);
         let dir = if std::path::Path::new("/dev/shm").is_dir() { "/dev/shm".to_string() } else { ".".to_string() };
@@ -116,6 +121,7 @@ impl World {
                 stats.bump("ev.tick");
             }
             Ev::Restart => {
+                assert!(!self.path.as_os_str().is_empty(), "restart needs a file store");
                 self.pool = None; // closes the connection
                 self.pool = Some(pool::Pool::verif_open(self.path.to_str().unwrap()).expect("reopen store"));
                 t.n(3);
@@ -268,6 +274,9 @@ impl World {
 impl Drop for World {
     fn drop(&mut self) {
         self.pool = None;
+        if self.path.as_os_str().is_empty() {
+            return;
+        }
         let _ = std::fs::remove_file(&self.path);
         let _ = std::fs::remove_file(format!("{}-journal", self.path.display()));
     }
@@ -755,6 +764,67 @@ pub fn fixed_histories() -> Vec<Vec<Ev>> {
     ]
 }
 
+/// Exhaustive small scope (thorough tier): every history of exactly `len`
+/// events over the given alphabet, on an in-memory store.  Supports the
+/// correspondence, never a theorem.
+fn exhaustive(len: usize, alphabet: &[Ev], out: &mut dyn Write, stats: &mut Stats) {
+    let mut idx = vec![0usize; len];
+    loop {
+        let mut w = World::new_mem();
+        let mut body = Toks::new();
+        for &i in &idx {
+            w.exec(&alphabet[i], &mut body, stats);
+        }
+        let mut t = Toks::new();
+        t.n(len as u64);
+        t.append(&body);
+        writeln!(out, "{}", t.0).unwrap();
+        stats.bump("exhaustive-history");
+        // next tuple
+        let mut k = 0;
+        while k < len {
+            idx[k] += 1;
+            if idx[k] < alphabet.len() {
+                break;
+            }
+            idx[k] = 0;
+            k += 1;
+        }
+        if k == len {
+            break;
+        }
+    }
+}
+
+fn small_alphabet(full: bool) -> Vec<Ev> {
+    let x = BASE + 1;
+    let y = BASE + 2;
+    let mut v = vec![];
+    let pools: Vec<Vec<u32>> = if full { vec![vec![x], vec![y], vec![x, y]] } else { vec![vec![x], vec![x, y]] };
+    let reqs: Vec<Option<u32>> = if full { vec![None, Some(x), Some(y)] } else { vec![None, Some(x)] };
+    for c in [b"a".to_vec(), b"b".to_vec()] {
+        for rq in &reqs {
+            for p in &pools {
+                v.push(Ev::Alloc {
+                    via: 0,
+                    cidmode: 0,
+                    reqmode: 0,
+                    alt: 0,
+                    client: c.clone(),
+                    req: *rq,
+                    pool: p.clone(),
+                    tmin: 300,
+                    tmax: 86400,
+                });
+            }
+        }
+    }
+    for d in [299u32, 300, 301] {
+        v.push(Ev::Tick(d));
+    }
+    v
+}
+
 pub fn run(which: &str, args: &Args, out: &mut dyn Write) -> Stats {
     let mut stats = Stats::default();
     if let Some(path) = &args.replay {
@@ -782,6 +852,12 @@ pub fn run(which: &str, args: &Args, out: &mut dyn Write) -> Stats {
         t.append(&body);
         writeln!(out, "{}", t.0).unwrap();
         stats.bump("fixed-history");
+    }
+    if thorough && !args.extra.iter().any(|a| a == "--no-exhaustive") {
+        // 2 clients x 2 addresses x ticks {299,300,301}: all histories of length 3 over the
+        // full alphabet (21^3) and of length 4 over the reduced one (11^4)
+        exhaustive(3, &small_alphabet(true), out, &mut stats);
+        exhaustive(4, &small_alphabet(false), out, &mut stats);
     }
     let mut r = Rng::new(args.seed ^ match which {
         "C01" => 0x01,
